@@ -593,6 +593,95 @@ def _parents_if(node):
     return out
 
 
+def r6_nan_free_fit_inputs(ctx):
+    """lmfit.minimize raises ValueError as soon as a NaN reaches it.  In an
+    estimator that fits, a division whose denominator vanishes for a
+    documented degenerate input - the peak-to-peak range of the force
+    (constant data, e.g. a flat approach part after clipping) or an index
+    estimate that can be 0 (no baseline) - must be excluded by a guard,
+    otherwise the estimator raises instead of returning NaN (= centre
+    fallback in compute_poc)."""
+    from ..symres import Resolver
+    n = 0
+    for f, kws, d in _estimators(ctx):
+        if not any((call_name(c) or "").endswith("minimize")
+                   for c in calls_in(f, nested=False)):
+            continue
+        R = Resolver(f)
+        params = func_params(f)
+        data = params[0] if params else "force"
+        # names holding an index estimate in [0, size)
+        idx_names = set()
+        for st in walk_no_nested(f, False):
+            if isinstance(st, ast.Assign) and isinstance(
+                    st.targets[0], ast.Name) and isinstance(
+                    st.value, ast.Call) and (call_name(st.value) or ""
+                                             ).startswith("poc_"):
+                idx_names.add(st.targets[0].id)
+
+        def classify(den):
+            t = R.text(den).replace(" ", "")
+            if isinstance(den, ast.Name) and den.id in idx_names:
+                return "index"
+            mx = [f"np.max({data})", f"{data}.max()", f"max({data})"]
+            mn = [f"np.min({data})", f"{data}.min()", f"min({data})"]
+            if any(t == f"{a}-{b}" for a in mx for b in mn) or t in (
+                    f"np.ptp({data})", f"{data}.ptp()"):
+                return "range"
+            return None
+
+        for node in walk_no_nested(f, False):
+            if not (isinstance(node, ast.BinOp) and isinstance(
+                    node.op, ast.Div)):
+                continue
+            kind = classify(node.right)
+            if kind is None:
+                continue
+            n += 1
+            dtxt = norm(node.right)
+            rtxt = R.text(node.right).replace(" ", "")
+            ok = False
+            for a in conditions_at(node):
+                if not a.pol:
+                    continue
+                c = a.node
+                at = R.text(c).replace(" ", "")
+                if isinstance(c, ast.Name) and c.id == dtxt:
+                    ok = True
+                if isinstance(c, ast.Compare) and len(c.ops) == 1:
+                    l = R.text(c.left).replace(" ", "")
+                    r_ = R.text(c.comparators[0]).replace(" ", "")
+                    op = c.ops[0]
+                    zero = ("0", "0.0")
+                    if l in (dtxt, rtxt) and r_ in zero and isinstance(
+                            op, (ast.Gt, ast.NotEq)):
+                        ok = True
+                    if r_ in (dtxt, rtxt) and l in zero and isinstance(
+                            op, (ast.Lt, ast.NotEq)):
+                        ok = True
+                    if kind == "range" and isinstance(
+                            op, (ast.Gt, ast.NotEq)) and "max" in l and \
+                            "min" in r_ and data in l and data in r_:
+                        ok = True
+                    if kind == "range" and isinstance(
+                            op, (ast.Lt, ast.NotEq)) and "min" in l and \
+                            "max" in r_ and data in l and data in r_:
+                        ok = True
+                del at
+            what = {"range": "the peak-to-peak range of the force, which "
+                    "is 0 for constant data (a flat approach part)",
+                    "index": "an index estimate that is 0 for a curve "
+                    "without a baseline"}[kind]
+            ctx.check(ok, node, f"{f.name}: `{norm(node)[:40]}` guarded "
+                      f"against a zero {kind}",
+                      f"{f.name} divides by `{dtxt}` - {what} - without a "
+                      "guard: the NaN reaches lmfit.minimize, which raises "
+                      "ValueError, so compute_poc raises for this "
+                      "degenerate input instead of falling back to the "
+                      "middle of the data")
+    ctx.floor("zero-prone divisions in fitting estimators", n, 3)
+
+
 RULES = [
     ("C08-R1", "returned index invariant under a*force + b (scale types)",
      r1_affine_invariance),
@@ -603,4 +692,6 @@ RULES = [
     ("C08-R4", "baseline-deviation test is strict", r4_strict_threshold),
     ("C08-R5", "an index taken from a fit parameter cannot leave the data",
      r5_index_range),
+    ("C08-R6", "no NaN reaches the optimiser of a fitting estimator for "
+     "constant data or a curve without baseline", r6_nan_free_fit_inputs),
 ]
